@@ -556,6 +556,32 @@ def r08_15(run, model):
     c07.r07_8(run, model, only=("EClosure",))
 
 
+def r08_21(run, model):
+    run.rule("R08.21", "the Go type of a field read is taken from the definition as it stands after lambda lifting: lifting rewrites a struct "
+                       "field `run: (int32) -> int32` to its closure struct when it meets the first literal, so a read lifted earlier still "
+                       "carries the function type on its node - where the Go back end declares the temporary of an `EConstrGet` (cexpr_ty) it "
+                       "does not use the type stored on the node but the field type of the enum / struct definition in the Go environment")
+    GOC = "crates/compiler/src/go/compile.rs"
+    f = model.fn("cexpr_ty", GOC)
+    arms = []
+    for m in S.find(f.body, "Match"):
+        for a in m["arms"]:
+            for alt in S.pat_alts(a["pat"]):
+                if alt["k"] in ("PStruct", "PTupleStruct", "PPath") and alt.get("segs") and alt["segs"][-1] == "EConstrGet":
+                    arms.append((a, alt))
+    if not arms:
+        raise AnalysisIncomplete("cexpr_ty: no arm for EConstrGet")
+    for a, alt in arms:
+        binds_ty = any(fl.get("name") == "ty" and S.pat_bindings(fl["pat"]) for fl in alt.get("fields") or [])
+        shared = len(S.pat_alts(a["pat"])) > 1
+        reads_env = "goenv" in S.idents(a["body"]) or any(S.callee_name(c) in ("get_enum", "get_struct", "instantiate_struct_fields") for c in S.calls(a["body"]))
+        ok = not binds_ty and not shared and reads_env
+        run.ob("R08.21", "cexpr_ty|EConstrGet is typed from the definition", ok, site(GOC, a["sp"]),
+               f"stored type bound: {binds_ty}; arm shared with other forms: {shared}; consults the Go environment: {reads_env}",
+               witness="fn call_it(h: Handler) -> int32 { let f = h.run; f(1) } placed above the function that builds Handler { run: |x| x + n }: "
+                       "`var t5 func(int32) int32 = h__0.run` while the field is declared `run closure_env_bump_0`")
+
+
 def run(run, model):
     run.try_rule(r08_10, model)
     run.try_rule(r08_12, model)
@@ -573,6 +599,7 @@ def run(run, model):
     except AnalysisIncomplete as e:
         run.skipped.append({"rule_fn": "r01_3", "reason": str(e)})
     run.try_rule(r08_8, model)
+    run.try_rule(r08_21, model)
     run.rule("R08.20", "a closure literal is lifted from its own body, never answered from another occurrence's record (shared with C01 R01.12)")
     run.try_rule(c01.r01_12, model)
     run.try_rule(r08_5, model)
